@@ -56,3 +56,8 @@ Proof. reflexivity. Qed.
    and drain the call performs on its response is one the context (or the peer's end) interrupts *)
 Lemma switching_protocols_body_replaced : duplex_101_body_replaced = true.
 Proof. reflexivity. Qed.
+
+(* C13: the error a client's construction failed with stays inside the client; every call
+   that fails with it gets a copy (errors are mutable: Meta, AddDetail) *)
+Lemma construction_error_is_private : client_construction_error_is_private = true.
+Proof. reflexivity. Qed.
